@@ -493,6 +493,8 @@ func engineAL(w *World, tier string) *EngineResult {
 		}
 	}
 	alPrec(w, r)
+	alLen(w, r)
+	alArm(w, r)
 	r.Stats["alias_rows"] = n
 	r.floor("alias_rows", 12)
 	r.finish()
